@@ -83,7 +83,9 @@ fn other_model() -> AutosarModel {
     o
 }
 
-pub const SEEDS: [&str; 8] = ["refs", "nested", "twofile", "samever", "mixedver", "lenient", "empty", "lastfile"];
+/// seeds explored to one level less than the others (see explore)
+pub const SHALLOW_SEEDS: [&str; 1] = ["longname"];
+pub const SEEDS: [&str; 9] = ["refs", "nested", "twofile", "samever", "mixedver", "lenient", "empty", "lastfile", "longname"];
 
 pub fn seed(name: &str) -> World {
     let m = AutosarModel::new();
@@ -100,11 +102,27 @@ pub fn seed(name: &str) -> World {
             mk_ref(&fe, None, Some("/a/a1"), EnumItem::CanCluster); // dangling = a path a rename can create
             mk_ref(&fe, None, Some("/a/c"), EnumItem::EcuInstance); // resolves, DEST does not fit
             let a10 = pkgs.create_named_sub_element(ElementName::ArPackage, "a10").unwrap();
-            let sub = a10.create_sub_element(ElementName::ArPackages).unwrap();
-            // the names a package "a" gets when it is moved here are taken twice already: a and a_1 (the latter is referenced)
-            sub.create_named_sub_element(ElementName::ArPackage, "a").unwrap();
-            sub.create_named_sub_element(ElementName::ArPackage, "a_1").unwrap();
-            mk_ref(&fe, None, Some("/a10/a_1"), EnumItem::CanCluster);
+            a10.create_sub_element(ElementName::ArPackages).unwrap();
+        }
+        "longname" => {
+            // two packages with the same name of 127 characters (one more character fits, "_1" does not), one of them referenced:
+            // moving or copying one next to the other needs a replacement name that is still a valid name
+            m.create_file("x.arxml", V50).unwrap();
+            let pkgs = m.root_element().create_sub_element(ElementName::ArPackages).unwrap();
+            let long: String = std::iter::once('L').chain(std::iter::repeat('n').take(126)).collect();
+            let l_top = pkgs.create_named_sub_element(ElementName::ArPackage, &long).unwrap();
+            l_top.create_sub_element(ElementName::Elements).unwrap().create_named_sub_element(ElementName::CanCluster, "lc").unwrap();
+            let q = pkgs.create_named_sub_element(ElementName::ArPackage, "q").unwrap();
+            let sub = q.create_sub_element(ElementName::ArPackages).unwrap();
+            sub.create_named_sub_element(ElementName::ArPackage, &long).unwrap();
+            // the names a package "r" gets when it is moved here are taken twice already: r and r_1 (the latter is referenced)
+            pkgs.create_named_sub_element(ElementName::ArPackage, "r").unwrap();
+            sub.create_named_sub_element(ElementName::ArPackage, "r").unwrap();
+            sub.create_named_sub_element(ElementName::ArPackage, "r_1").unwrap();
+            let s = q.create_sub_element(ElementName::Elements).unwrap().create_named_sub_element(ElementName::System, "s").unwrap();
+            let fe = s.create_sub_element(ElementName::FibexElements).unwrap();
+            mk_ref(&fe, None, Some(&format!("/{long}/lc")), EnumItem::CanCluster);
+            mk_ref(&fe, None, Some("/q/r_1"), EnumItem::CanCluster);
         }
         "nested" => {
             m.create_file("x.arxml", V50).unwrap();
@@ -144,6 +162,12 @@ pub fn seed(name: &str) -> World {
             let rr = xref.create_sub_element(ElementName::ReferrableRef).unwrap();
             rr.set_attribute(AttributeName::Dest, EnumItem::CanCluster).unwrap();
             rr.set_character_data("/a/a1/c").unwrap();
+            // a second L-2 whose only content item is a sub-element holding a reference
+            let l2b = desc.create_sub_element(ElementName::L2).unwrap();
+            l2b.set_attribute(AttributeName::L, EnumItem::De).unwrap();
+            let rrb = l2b.create_sub_element(ElementName::Xref).unwrap().create_sub_element(ElementName::ReferrableRef).unwrap();
+            rrb.set_attribute(AttributeName::Dest, EnumItem::CanCluster).unwrap();
+            rrb.set_character_data("/a/a1/c").unwrap();
             a.set_comment(Some("cmt".into()));
         }
         "twofile" => {
@@ -189,7 +213,7 @@ pub fn seed(name: &str) -> World {
         "lenient" => {
             // 4.0.1 file with a child that only exists in later versions and a reference without DEST
             let doc = format!(
-                "<?xml version=\"1.0\" encoding=\"utf-8\"?><AUTOSAR {}><AR-PACKAGES><AR-PACKAGE><SHORT-NAME>a</SHORT-NAME><ELEMENTS><SYSTEM><SHORT-NAME>s</SHORT-NAME><FIBEX-ELEMENTS><FIBEX-ELEMENT-REF-CONDITIONAL><FIBEX-ELEMENT-REF>/a/c</FIBEX-ELEMENT-REF></FIBEX-ELEMENT-REF-CONDITIONAL></FIBEX-ELEMENTS><SYSTEM-VERSION>1</SYSTEM-VERSION><INTERPOLATION-ROUTINE-MAPPING-SET-REFS/></SYSTEM><CAN-CLUSTER><SHORT-NAME>c</SHORT-NAME></CAN-CLUSTER></ELEMENTS></AR-PACKAGE></AR-PACKAGES></AUTOSAR>",
+                "<?xml version=\"1.0\" encoding=\"utf-8\"?><AUTOSAR {}><AR-PACKAGES><AR-PACKAGE><SHORT-NAME>a</SHORT-NAME><ELEMENTS><SYSTEM><SHORT-NAME>s</SHORT-NAME><FIBEX-ELEMENTS><FIBEX-ELEMENT-REF-CONDITIONAL><FIBEX-ELEMENT-REF>/a/c</FIBEX-ELEMENT-REF></FIBEX-ELEMENT-REF-CONDITIONAL></FIBEX-ELEMENTS><SYSTEM-VERSION>1</SYSTEM-VERSION><INTERPOLATION-ROUTINE-MAPPING-SET-REFS/></SYSTEM><CAN-CLUSTER><SHORT-NAME>c</SHORT-NAME></CAN-CLUSTER><CAN-CLUSTER><SHORT-NAME>0c</SHORT-NAME></CAN-CLUSTER></ELEMENTS></AR-PACKAGE><AR-PACKAGE><SHORT-NAME>a1</SHORT-NAME><ELEMENTS><CAN-CLUSTER><SHORT-NAME>0c</SHORT-NAME></CAN-CLUSTER></ELEMENTS></AR-PACKAGE></AR-PACKAGES></AUTOSAR>",
                 header_attrs(AutosarVersion::Autosar_4_0_1)
             );
             m.load_buffer(doc.as_bytes(), "x.arxml", false).expect("lenient seed loads");
@@ -1052,7 +1076,14 @@ pub fn transition_oracles(w: &World, pre: &PreState, op: &Op, out: &Outcome) -> 
                 let mut a_cmp = a.clone();
                 if let (Some(n1), Some(n0)) = (copy.item_name(), srce.item_name()) {
                     if n1 != n0 {
-                        let suffix_ok = n1.strip_prefix(&format!("{n0}_")).is_some_and(|d| !d.is_empty() && d.bytes().all(|c| c.is_ascii_digit()));
+                        // the source's name plus a numeric suffix; a name that would exceed the 128 characters a SHORT-NAME may have
+                        // keeps as much of the source's name as fits in front of the suffix
+                        let digits = |d: &str| !d.is_empty() && d.bytes().all(|c| c.is_ascii_digit());
+                        let suffix_ok = n1.strip_prefix(&format!("{n0}_")).is_some_and(digits)
+                            || (n1.len() == 128 && n1.rsplit_once('_').is_some_and(|(base, d)| digits(d) && n0.starts_with(base) && n0.len() + 1 + d.len() > 128));
+                        if n1.len() > 128 {
+                            f.push(fd("C13", "copy|renamed-copy-has-a-name-longer-than-a-short-name-may-be", format!("{n0} -> {n1}")));
+                        }
                         if !suffix_ok {
                             f.push(fd("C13", "copy|renamed-copy-has-unexpected-name", format!("{n0} -> {n1}")));
                         }
@@ -1485,6 +1516,10 @@ pub fn explore(cfg: &Config, ctx: &Ctx, report: &(dyn Fn(&Finding, Value) + Sync
                 ps.depth_done = depth;
                 continue;
             }
+            // seeds that exist for one shape reached by a single call are explored one level less (at least one)
+            if SHALLOW_SEEDS.contains(&ps.name) && depth > 1 && depth == cfg.depth {
+                continue;
+            }
             if ctx.elapsed() - run_start > cfg.wall_cap_s {
                 stats.capped = true;
                 break 'levels;
@@ -1559,7 +1594,7 @@ pub fn explore(cfg: &Config, ctx: &Ctx, report: &(dyn Fn(&Finding, Value) + Sync
             }
         }
     }
-    stats.depth_completed = per_seed.iter().map(|p| if p.exhausted { cfg.depth } else { p.depth_done }).min().unwrap_or(0);
+    stats.depth_completed = per_seed.iter().map(|p| if p.exhausted { cfg.depth } else if SHALLOW_SEEDS.contains(&p.name) && cfg.depth > 1 { p.depth_done + 1 } else { p.depth_done }).min().unwrap_or(0);
     stats
 }
 
